@@ -318,7 +318,20 @@ def run(pid, tier, seed, t0, asbuilt=None):
             verdict.violation(v["tag"], f"request for {v['ro']} was served on a connection dialled for {v['co']} (record {v['l']} of the many-origins scenario)",
                               {"kind": "pool-manyorigins", "n": n, "seed": seed, "record": recs[v["l"] - 1]})
         all_viol += kv[0]
-        keys = {"model_states": km.distinct, "reset_variant_violates": kr.violated, "scenario": stats, "violations": len(kv[0])}
+        apal = None
+        if tier == "thorough":
+            # unbounded counter: the inductive invariant of the key map is discharged by Apalache (spec/apalache/PoolKeysInd.tla)
+            import subprocess
+            adir = os.path.join(vlib.SPEC, "apalache")
+            res = []
+            for a in (["--init=Init", "--length=0"], ["--init=IndInit", "--length=1"]):
+                pr = subprocess.run(["apalache-mc", "check", "--cinit=CInit", "--inv=IndInv", "--out-dir=" + os.path.join(d, "apalache-out")] + a + ["PoolKeysInd.tla"],
+                                    cwd=adir, stdout=subprocess.PIPE, stderr=subprocess.STDOUT, text=True, timeout=1800)
+                res.append("EXITCODE: OK" in pr.stdout)
+            if not all(res):
+                raise vlib.ToolError("Apalache did not discharge the inductive invariant of PoolKeysInd.tla")
+            apal = {"base_case": res[0], "inductive_step": res[1]}
+        keys = {"apalache_inductive_invariant": apal, "model_states": km.distinct, "reset_variant_violates": kr.violated, "scenario": stats, "violations": len(kv[0])}
 
     # ---- trace validation of the random walks against Pool.tla itself (impl -> spec; DRIFT only)
     tv = None
